@@ -31,7 +31,7 @@ MIN_COUNTERS = {'quick': {'checked': 40000, 'accepted': 8000, 'rejected_by_condi
                           'predicate_raised': 2000, 'boundary_values': 5000, 'serialise_checked': 8000, 'multi_condition_annotations': 3000, 'same_name_condition_annotations': 300}}
 
 E = env.m_errors
-THRESH = (0, 1, 5, -3, 2.5, 10)
+THRESH = (0, 1, 5, -3, 2.5, 10, float('inf'), float('-inf'))     # (bounds that come from parameters defaulting to -inf / +inf)
 
 
 def gen_leaf(rng, fam):
@@ -326,6 +326,42 @@ def run(ctx):
                 return
 
     drive.for_each_case(ctx, 'unchecked', 30, body_unchecked_instances, gen=lambda c, r: Ty('int'))
+
+    # the condition is asked about the value as it is NOW: one mutable object converted, changed in place by its owner, and converted
+    # again through the same type (where the inner type hands the object through: Any) is judged afresh, in both directions
+    def body_mutated_between(i, rng, ty, T):
+        kind = rng.choice(('len-max', 'nonempty', 'user-first-positive', 'dict-len'))
+        if kind == 'len-max':
+            cond, x, ok0, change = C.build_cond({'op': 'len_range', 'max': 2}), [1, 2], True, lambda o: o.append(3)
+        elif kind == 'nonempty':
+            cond, x, ok0, change = C.build_cond({'op': 'nonempty'}), [], False, lambda o: o.append(1)
+        elif kind == 'user-first-positive':
+            cond, x, ok0, change = env.m_annotations.Condition(lambda v: v[0] > 0, 'first_positive'), [1, 5], True, lambda o: o.__setitem__(0, -1)
+        else:
+            cond, x, ok0, change = C.build_cond({'op': 'len_range', 'min': 1}), {}, False, lambda o: o.__setitem__('k', 1)
+        TT = t.Annotated[t.Any, cond]
+        place = rng.choice(('top', 'field', 'list'))
+        if place == 'field':
+            H = type(f"MB{next(_serial)}", (env.PaneBase,), {'__annotations__': {'f': TT}, '__module__': __name__})
+            call = lambda: H.from_data({'f': x})
+        elif place == 'list':
+            LT = t.List[TT]
+            call = lambda: env.from_data([x], LT)
+        else:
+            call = lambda: env.from_data(x, TT)
+        first = observe(call)
+        change(x)
+        second = observe(call)
+        third = observe(call)
+        ctx.count('mutated_between_calls_checked')
+        ctx.case(('mutated-between', kind, place, first.kind, second.kind), nontrivial=True)
+        want = ('value' if ok0 else 'converr', 'converr' if ok0 else 'value')
+        if (first.kind, second.kind) != want or third.kind != second.kind:
+            ctx.violation('accepts-iff-inner-and-predicate', 'mutated-between', i,
+                          {'condition': kind, 'placed': place, 'first_call': first.brief()[:150], 'then': 'the owner changed the object in place', 'second_call': second.brief()[:150],
+                           'third_call': third.brief()[:150], 'expected': f"{want[0]} then {want[1]} (twice)"}, mech='condition-verdict-remembered-for-an-object')
+
+    drive.for_each_case(ctx, 'mutated-between', 40, body_mutated_between, gen=lambda c, r: Ty('int'))
 
     # the aliases shipped in pane.types
     def body_alias(i, rng, ty, T):
